@@ -126,3 +126,13 @@ CHECKS['C09'] = dict(
          'callback, dut set in phase) x subsets of 3 callbacks that raise: every callback gets the same complete final record exactly '
          'once in order; return value <=> PASS; afterwards no executor, no TEST_INSTANCES entry, no leaked log handler; overlap refused.',
     note='Concurrent execute() from two threads and the KeyboardInterrupt path are explored under the scheduler (C04/C09 schedules).')
+
+CHECKS['C06'] = dict(
+    engine='enum', level='model_checking', design_ref='DESIGN.md#c06',
+    technique='bounded-exhaustive assignment histories inside a real phase vs reference measurement model',
+    text='9 pairs of measurement declarations (scalar, transform, precision, marginal bands, two validators, raising validator, '
+         'conditional validator with its result present/absent, 1-D, 1-D+transform, 2-D, dimensioned raising validator) x all '
+         'assignment histories up to length 2 (3 in thorough) over values {5, 9.5, 11, 1, None, NaN, str}, per-coordinate sets and '
+         'overrides, assignments without coordinates / wrong coordinate count / undeclared names, executed in a real phase of a real '
+         'Test and compared with a reference model: recorded value, outcome, marginal, per-assignment exceptions, phase error.',
+    note='Validators limited to the listed codes; values limited to the listed set.')
